@@ -416,6 +416,10 @@ func runC13Tree(r *mon.Run, stream uint64) {
 	}
 	// V2TransactionSet / AddV2PoolTransactions at the tip
 	c13Broadcast(r, t, cm, rng, base)
+	// ... and as the first pool call after a tip change
+	for i := 0; i < 2; i++ {
+		c13Lazy(r, t, node, rng, base)
+	}
 }
 
 func orNone(s string) string {
@@ -578,6 +582,8 @@ func runC13(r *mon.Run, replay string) {
 	r.Floor("updates_across_forks", 50)
 	r.Floor("broadcast_sets_with_parents", 20)
 	r.Floor("ephemeral_inputs_became_confirmed", 1)
+	r.Floor("updates:set-members-confirmed-in-different-blocks", 20)
+	r.Floor("txnset_after_tip_change_with_parents", 20)
 }
 
 // c13Confirm builds a set on the tip, mines a PRNG-chosen subsequence of it
@@ -597,24 +603,48 @@ func c13Confirm(r *mon.Run, t *chainlab.Tree, node *chainlab.TestNode, rng *rand
 	if len(set) < 2 {
 		return
 	}
-	// block 1: a subsequence of the set (the oracle refuses children whose parent was left out)
-	bb := from.L.NewBuilder(rng)
+	// one to three blocks, each confirming a PRNG-chosen subsequence of what is
+	// left of the set (the oracle refuses children whose parent is neither
+	// confirmed nor in the same block), with empty blocks in between
 	confirmed := map[types.TransactionID]bool{}
+	ephAll := map[types.Hash256]bool{}
 	for _, x := range set {
-		if rng.IntN(2) == 0 && bb.TryV2("from-set", x.DeepCopy()) {
-			confirmed[x.ID()] = true
+		for _, c := range chainlab.V2Creates(x) {
+			ephAll[c] = true
 		}
 	}
-	blk := bb.Seal(from.Block.Timestamp.Add(t.Env.Net.BlockInterval), t.Env.A(chainlab.Miner).Addr, true)
-	to := t.Attach(from, blk, "", bb.Kinds)
-	if !to.ChainValid {
-		r.Inconclusive("generator built an invalid block: " + to.Err)
-		return
-	}
-	path := []*chainlab.Node{to}
-	for i := 0; i < rng.IntN(3); i++ {
-		to = t.ExtendEmpty(to, zeroT)
+	to := from
+	var path []*chainlab.Node
+	nb, blocksWith := 1+rng.IntN(3), 0
+	for j := 0; j < nb; j++ {
+		bb := to.L.NewBuilder(rng)
+		took := 0
+		for _, x := range set {
+			if confirmed[x.ID()] || rng.IntN(2) != 0 {
+				continue
+			}
+			if rb, ok := to.L.RebaseV2(x, ephAll); ok && bb.TryV2("from-set", rb) {
+				confirmed[x.ID()] = true
+				took++
+			}
+		}
+		if took > 0 {
+			blocksWith++
+		}
+		blk := bb.Seal(to.Block.Timestamp.Add(t.Env.Net.BlockInterval), t.Env.A(chainlab.Miner).Addr, true)
+		to = t.Attach(to, blk, "", bb.Kinds)
+		if !to.ChainValid {
+			r.Inconclusive("generator built an invalid block: " + to.Err)
+			return
+		}
 		path = append(path, to)
+		for i := 0; i < rng.IntN(3); i++ {
+			to = t.ExtendEmpty(to, zeroT)
+			path = append(path, to)
+		}
+	}
+	if blocksWith > 1 {
+		r.Count("updates:set-members-confirmed-in-different-blocks", 1)
 	}
 	if err := cm.AddBlocks(chainlab.Blocks(path)); err != nil || cm.Tip().ID != to.ID {
 		r.Violation("setup", fmt.Sprintf("node did not adopt a valid extension: %v", err), base, nil)
